@@ -195,8 +195,27 @@ def r3_compressed(ctx):
             if not isinstance(m, Sym):
                 return TOP
             k, v = load(interp, env, args[1]), args[2]
-            interp.mstate[m.tag] = interp.mstate.get(m.tag, ()) + ((k, v),)
-            return NONE
+            k = getattr(k, "tag", k)
+            pairs = list(interp.mstate.get(m.tag, ()))
+            old = [x for x in pairs if x[0] == k]
+            if old:
+                pairs = [(a, (v if a == k else b)) for (a, b) in pairs]
+            else:
+                pairs.append((k, v))
+            interp.mstate[m.tag] = tuple(pairs)
+            return some(old[0][1]) if old else NONE
+        def hm_get(interp, env, f, args):
+            m = load(interp, env, args[0])
+            if not (isinstance(m, Sym) and m.tag.startswith("map:")):
+                return TOP
+            key = load(interp, env, args[1])
+            kt = getattr(key, "tag", repr(key))
+            pairs = dict(interp.mstate.get(m.tag, ()))
+            nm_ = f.get("name")
+            if nm_ == "contains_key":
+                return kt in pairs
+            return some(pairs[kt]) if kt in pairs else NONE
+
         def hm_len(interp, env, f, args):
             m = load(interp, env, args[0])
             return len(interp.mstate.get(m.tag, ())) if isinstance(m, Sym) and m.tag.startswith("map:") else TOP
@@ -204,7 +223,8 @@ def r3_compressed(ctx):
         def hm_is_empty(interp, env, f, args):
             r = hm_len(interp, env, f, args)
             return TOP if r is TOP else r == 0
-        table = {"std::collections::hash::map::HashMap::len": hm_len, "std::collections::hash::map::HashMap::is_empty": hm_is_empty,
+        table = {"std::collections::hash::map::HashMap::get": hm_get, "std::collections::hash::map::HashMap::contains_key": hm_get,
+                 "std::collections::hash::map::HashMap::len": hm_len, "std::collections::hash::map::HashMap::is_empty": hm_is_empty,
                  "std::collections::hash::map::HashMap::new": hm_new, "std::collections::hash::map::HashMap::with_capacity": hm_new,
                  "std::collections::hash::map::HashMap::entry": hm_entry, "std::collections::hash::map::Entry::or_insert_with": or_insert_with,
                  "std::collections::hash::map::HashMap::insert": hm_insert}
